@@ -7,6 +7,7 @@ pub mod c21;
 pub mod c23;
 pub mod c35;
 pub mod c39;
+pub mod embed;
 
 use crate::harness::Property;
 
@@ -14,6 +15,9 @@ pub fn get(id: &str) -> Option<&'static dyn Property> {
     match id {
         "C01" => Some(&c01::C01),
         "C02" => Some(&c02::C02),
+        "C07" => Some(&embed::Embed(embed::Which::C07)),
+        "C08" => Some(&embed::Embed(embed::Which::C08)),
+        "C09" => Some(&embed::Embed(embed::Which::C09)),
         "C10" => Some(&c10::C10),
         "C12" => Some(&c12::C12),
         "C13" => Some(&c13::C13),
@@ -25,4 +29,4 @@ pub fn get(id: &str) -> Option<&'static dyn Property> {
     }
 }
 
-pub const ALL_IDS: &[&str] = &["C01", "C02", "C10", "C12", "C13", "C21", "C23", "C35", "C39"];
+pub const ALL_IDS: &[&str] = &["C01", "C02", "C07", "C08", "C09", "C10", "C12", "C13", "C21", "C23", "C35", "C39"];
